@@ -101,7 +101,16 @@ type SeqDriver struct {
 	lsn    int32
 }
 
-func (d *SeqDriver) supi(u string) string { return "imsi-" + d.Prefix + u }
+func (d *SeqDriver) supi(u string) string { return SupiOf(d.Prefix, u) }
+
+// SupiOf renders a model subscriber token as a SUPI of this worker.  A token that starts with "0" stands for an IMSI with
+// leading zeros (MCC 001 is the test network): "0x" is "00" + prefix + "x", whose zero-stripped form is the SUPI of token "x".
+func SupiOf(prefix, u string) string {
+	if len(u) > 1 && u[0] == '0' {
+		return "imsi-00" + prefix + u[1:]
+	}
+	return "imsi-" + prefix + u
+}
 
 func rgNum(s string) int32 {
 	n, _ := strconv.Atoi(s)
